@@ -136,7 +136,7 @@ static void gen_rc(opcase_t *c, rng_t *r, int maxdim) {
     if (v != RC_P_LEFT && v != RC_P_LEFT_TRANS && !c->ip[6] && rng_chance(r, 1, 3)) {
       /* heights around the strip height of the gather kernel */
       int w = (n + 63) / 64;
-      int strip = (__M4RI_CPU_L1_CACHE >> 3) / w;
+      int strip = (int)((GC.l1 >> 3) / w);
       if (strip < 1) strip = 1;
       m = strip * rng_int(r, 1, 2) + rng_int(r, -1, 2);
       if (m < 1) m = 1;
